@@ -52,6 +52,30 @@ for round_ in range(6):
     check_all("round %d after dropping half" % round_)
     if bad:
         break
+# a callback created WHILE another one is being destroyed (from a __del__ reached through the dying callback's
+# function): it may get the closure being released, and must still be bound to its own function afterwards
+class Trigger(object):
+    def __init__(self, out):
+        self.out = out
+
+    def __del__(self):
+        k = len(self.out)
+        self.out.append(ffi.callback("long(long)", lambda x, k=k: x + 7000 + k))
+
+
+made = []
+for j in range(5):
+    t = Trigger(made)
+    cb = ffi.callback("int(int)", lambda x, t=t: x)
+    del t
+    del cb
+gc.collect()
+for k, cb in enumerate(made):
+    f = ffi.cast("long(*)(long)", cb)
+    if f(1) != 1 + 7000 + k or cb(2) != 2 + 7000 + k:
+        bad.append("callback #%d created during the destruction of another one does not invoke its own function" % k)
+if len(made) != 5:
+    bad.append("expected 5 callbacks created from __del__, got %d" % len(made))
 if bad:
     print("FAIL %d: %s" % (len(bad), " ;; ".join(bad[:3])))
     sys.exit(1)
